@@ -6,6 +6,7 @@ import DTML.TreeCodec
 import DTML.TreeState
 import DTML.GenTreeState
 import DTML.Lemmas.TreeGen
+import DTML.Lemmas.TreeCodecGen
 set_option linter.unusedVariables false
 namespace DTML.Props.C20
 open DTML.TreeCodec
@@ -434,6 +435,95 @@ example : decodeStr (encodeStr (List.replicate 57 200)) = some (List.replicate 5
 example : decodeStr (encodeStr (List.replicate 58 7 ++ [0, 255])) = some (List.replicate 58 7 ++ [0, 255]) := by
   decide +kernel
 example : encodeStr [251, 255, 190] = "-/--".toList := by decide +kernel
+
+/-! #### the codec TRANSLATED from TreeTag.py on every run (harness/trans_treecodec.py -> GenTree.lean) is the model -/
+
+section Translated
+open DTML.GenTree DTML.Lemmas.TreeCodecGen
+
+/-- `TreeTag.encode_str`, statement by statement, is `encodeStr` (for every byte string) -/
+theorem gen_encode_str_is_model (bs : Bytes) : GenTree.encodeStrGen bs = encodeStr bs := by
+  have hK : ∀ s : List Char, encodeStrK0 s = (s.takeWhile (· != '=')).map tplus := by
+    intro s
+    rw [← find_cut '=' s]
+    simp only [encodeStrK0, encodeStrK1]
+    split <;> rfl
+  unfold encodeStrGen encodeStr
+  simp only [hK]
+  by_cases h : bs.length > 57
+  · simp only [if_pos h]
+    rw [enc_loop_range 57 bs b2a (encodeStrLoop0 bs) (fun _ _ => rfl), flatten_map]
+  · simp only [if_neg h]
+
+/-- `TreeTag.encode_seq`, statement by statement, is `encodeStr` after `compress(json.dumps(state))` -/
+theorem gen_encode_seq_is_model {State : Type} (dumps : State → Bytes) (compress : Bytes → Bytes) (s : State) :
+    GenTree.encodeSeqGen dumps compress s = encodeStr (compress (dumps s)) := by
+  have hK : ∀ t : List Char, encodeSeqK0 dumps compress t = (t.takeWhile (· != '=')).map tplus := by
+    intro t
+    rw [← find_cut '=' t]
+    simp only [encodeSeqK0, encodeSeqK1]
+    split <;> rfl
+  unfold encodeSeqGen encodeStr
+  simp only [hK]
+  generalize compress (dumps s) = bs
+  by_cases h : bs.length > 57
+  · simp only [if_pos h]
+    rw [enc_loop_range 57 bs b2a (encodeSeqLoop0 dumps compress bs) (fun _ _ => rfl), flatten_map]
+  · simp only [if_neg h]
+
+/-- `TreeTag.decode_seq`, statement by statement, is `decodeStr`, then `decompress`, then `json.loads` (`[]` when that
+fails); `none`: `a2b_base64` raised -/
+theorem gen_decode_seq_is_model {State : Type} (decompress : Bytes → Bytes) (loads : Bytes → Option State)
+    (empty : State) (cs : List Char) :
+    GenTree.decodeSeqGen decompress loads empty cs =
+      (decodeStr cs).map (fun b => (loads (decompress b)).getD empty) := by
+  have hfin : ∀ o : Option Bytes, finishDecode decompress loads empty o =
+      o.map (fun b => (loads (decompress b)).getD empty) := by
+    intro o
+    unfold finishDecode
+    congr 1
+  -- the padding rule in front of a continuation
+  have hpad : ∀ (t : List Char) (F : List Char → Option State),
+      (if t.length % 4 ≠ 0 then F (t ++ List.replicate ((4 : Int) - ((t.length % 4 : Nat) : Int)).toNat '=') else F t)
+        = F (pad t) := by
+    intro t F
+    rw [← pad_gen t]
+    split <;> rfl
+  unfold decodeSeqGen decodeStr
+  generalize cs.map tminus = s
+  by_cases h : s.length > 76
+  · have hm : s.length / 76 * 76 ≤ s.length := Nat.div_mul_le_self _ _
+    simp only [if_pos h]
+    rw [dec_loop_range 76 (by decide) s a2b (decodeSeqLoop0 decompress loads empty s) (fun _ _ => rfl)
+      (s.length / 76) hm]
+    by_cases hj : s.length / 76 * 76 < s.length
+    · have he : (s.drop (s.length / 76 * 76)).isEmpty = false := by
+        cases hd : s.drop (s.length / 76 * 76) with
+        | nil => have := congrArg List.length hd; simp at this; omega
+        | cons a t => rfl
+      simp only [if_pos hj, he]
+      rw [hpad (s.drop (s.length / 76 * 76)) (fun t => decodeSeqK1 decompress loads empty _ t)]
+      simp only [decodeSeqK1, decodeSeqK0, hfin]
+      rfl
+    · have he : (s.drop (s.length / 76 * 76)).isEmpty = true := by
+        rw [List.drop_of_length_le (by omega)]; rfl
+      simp only [if_neg hj, he, decodeSeqK0, hfin]
+      rfl
+  · simp only [if_neg h]
+    rw [hpad s (fun t => decodeSeqK2 decompress loads empty t)]
+    simp only [decodeSeqK2, hfin]
+
+/-- **The round trip of the translated functions**: what `encode_seq` writes, `decode_seq` reads back (under the external
+laws of zlib and json) - for every state, whatever its length. -/
+theorem gen_codec_roundtrip {State : Type} (dumps : State → Bytes) (loads : Bytes → Option State)
+    (compress decompress : Bytes → Bytes) (empty : State)
+    (hjson : ∀ s, loads (dumps s) = some s) (hz : ∀ b, decompress (compress b) = b)
+    (hvalid : ∀ b, Valid (compress b)) (s : State) :
+    GenTree.decodeSeqGen decompress loads empty (GenTree.encodeSeqGen dumps compress s) = some s := by
+  rw [gen_encode_seq_is_model, gen_decode_seq_is_model, b64_roundtrip _ (hvalid _)]
+  simp [hz, hjson]
+
+end Translated
 
 end DTML.Props.C20
 
